@@ -6,6 +6,15 @@ NOTE = ("bounded scope only (declared lattices/catalogues/depths); exact Fractio
 TECH = "exhaustive small-scope enumeration of the real implementation against an exact reference model (explicit-state explorer written for this task)"
 
 CHECKS = {
+    "C01": ("Every configuration of every supported join/meet arity and kind (2D pairs over {-2..2}^3, complex pairs, 3D pairs over {-1,0,1}^4, "
+            "triples and 4-tuples over fixed point alphabets, collection layouts flat/grid/length-1/single-first/single-last) is executed on the "
+            "real join/meet and the result compared with the exact span/intersection (integer/Fraction subspace algebra): class, tensor type, "
+            "projective equality, argument order, un-normalised result, method/constructor forms, co-/contravariant line forms, round trips.",
+            NOTE, TECH, "DESIGN.md section 5, C01"),
+    "C02": ("The same enumerations without the general-position filter: the exact rank/coplanarity classification of every configuration "
+            "(independent / dependent / skew / zero vector / aliased argument) predicts LinearDependenceError, NotCoplanar or no exception; "
+            "for collections the dependent_values mask is compared bit for bit, incl. all 2^m masks for m<=4 by position.",
+            NOTE, TECH, "DESIGN.md section 5, C02"),
     "C20": ("Every matrix of the declared integer families (n=2..5) is pushed through det/adjugate/inv on both sides of the size>=n*n*64 "
             "switch, in int/float/complex, and compared with an exact integer cofactor oracle; null_space/orth over all {-1,0,1} matrices "
             "by exact rank; roots over all integer cubics with |c|<=3 and all factored cubics with repeated roots; is_multiple over all "
